@@ -74,6 +74,9 @@ func (f *in) Listen(onMsg func(msg []byte, milliseconds int32), conf drivers.Lis
 
 	f.last = time.Now()
 
+	// a new listener starts listening: forget the stop of a previous one
+	f.stopListening = false
+
 	stopFn = func() {
 		f.stopListening = true
 	}
@@ -144,6 +147,11 @@ func (f *out) Send(bt []byte) error {
 	}
 
 	if f.stopListening {
+		return nil
+	}
+
+	// nobody has listened yet: the message is dropped
+	if f.rd == nil {
 		return nil
 	}
 
